@@ -159,7 +159,7 @@ Section Step.
              end; cbn in *;
       repeat split; intros; try congruence; try discriminate; auto;
       try (destruct (disk s); [ | match goal with H : false = false -> _ |- _ => destruct (H eq_refl); congruence end ]);
-      try tauto; try (left; congruence); try (right; congruence); try intuition congruence;
-      try (match goal with E0 : _ || _ = true, H0 : _ = false |- _ => rewrite H0, orb_false_r in E0; exact E0 end).
+      try tauto; try (left; congruence); try (right; congruence); try intuition congruence.
+    all: match goal with E0 : orb _ _ = true |- _ => apply orb_true_iff in E0; destruct E0; congruence end.
   Qed.
 End Step.
